@@ -1314,6 +1314,17 @@ fn on_crash(rep: &mut Report, kind: &str, seed: u64, depth: u32, index: u64, end
                         return;
                     }
                 }
+                // C03 is about values a RUNNING script owns. When compiling the script alone
+                // already kills the process, no script ran and nothing was released: that is a
+                // defect of the compiler (C06/C10: compilation is total), not of ownership.
+                let (conly, _) = rotov_harness::worker::run_worker_keep_stdout(
+                    &["compile-only", &src], std::time::Duration::from_secs(60));
+                if !matches!(conly, rotov_harness::worker::Ended::Exit(0, _)) {
+                    rep.notes.push(format!(
+                        "compiler-crash (not an ownership violation; no script ran): FileTree::compile alone ended {conly:?} on {origin}: {}",
+                        src.replace('\n', " ")));
+                    return;
+                }
                 ("crash".to_string(), "checker accepted the script".to_string())
             }
         },
@@ -1375,6 +1386,11 @@ fn main() {
             // replays: measured (script + inputs) before predicted-only
             rep.impl_violations.sort_by_key(|v| v["input"]["confirmed"] == json!(false) || v["input"]["crash"] == json!(true));
             rep.emit();
+        }
+        Some("worker") if args.get(2).map(|s| s.as_str()) == Some("compile-only") => {
+            // exit 0 when FileTree::compile returns (a package or a report), die with the
+            // compiler when it panics: tells a compiler crash from a crash of the running script
+            let _ = compile(&args[3]);
         }
         Some("worker") if args.get(2).map(|s| s.as_str()) == Some("replay-one") => {
             let v: Value = serde_json::from_str(&args[3]).expect("json");
